@@ -109,14 +109,6 @@ Definition run_layout (ns W napch nsync nc : Z) (labels : list Z) : list Z :=
     ++ enc_list enc_shank_layout
          (map (fun sh => (sh, shank_chns labels nc nsync sh)) (shanks_of labels)).
 
-Definition files_for_recon (split : list (Z * list Z * list row)) : option (list (list Z * list row)) :=
-  fold_right (fun x acc =>
-                let '(sh, chns, rows) := x in
-                match parse_subset (show_subset chns), acc with
-                | Some c, Some r => Some ((c, rows) :: r)
-                | _, _ => None
-                end) (Some []) split.
-
 Definition run_full (num den maxint ns W napch nsync nc : Z) (labels : list Z) (data : list row) : list Z :=
   let s := gain num den maxint in
   let flat := concat data in
@@ -129,7 +121,7 @@ Definition run_full (num den maxint ns W napch nsync nc : Z) (labels : list Z) (
   ++ match res with
      | None => [0]
      | Some split =>
-         match files_for_recon split with
+         match prepare_files labels split with
          | None => [0]
          | Some files => enc_option enc_rows (reconstruct files)
          end
